@@ -25,12 +25,16 @@ def getVal (j : Json) : Except String Val := do
     | .error _ =>
       match j.getObjVal? "c" with
       | .ok (.arr #[a, b]) => pure (.cplx (← getRat a) (← getRat b))
-      | _ => throw "bad value"
+      | _ =>
+        match j.getObjVal? "inf" with
+        | .ok _ => pure .inf
+        | .error _ => throw "bad value"
 
 def jsonVal : Val → Json
   | .num q => Json.mkObj [("n", jsonRat q)]
   | .str s => Json.mkObj [("s", Json.str s)]
   | .cplx a b => Json.mkObj [("c", Json.arr #[jsonRat a, jsonRat b])]
+  | .inf => Json.mkObj [("inf", true)]
 
 def getPairs (j : Json) : Except String (List (String × Val)) := do
   let a ← j.getArr?
